@@ -171,23 +171,28 @@ func buildShiftMatchingPredicate(sw swamp.Swamp, beaconType swamp.BeaconType, fi
 	}
 
 	// Filter present — plan it.
+	//
+	// The candidate key set is computed here, before the engine takes the
+	// beacon mu, so it is only a fast-reject hint: an empty lookup yields
+	// a nil set (nil-map lookups reject every key), and a candidate may
+	// have been rewritten by the time it is claimed. The caller's full
+	// filter therefore still decides the claim under the lock.
 	plan := PlanFilter(filters)
-	filterEval := filters
+	indexed := plan.Mode != PlanModeBypass
 	var keySet map[string]struct{}
-	if plan.Mode != PlanModeBypass {
+	if indexed {
 		candidates := collectBucketCandidates(sw, plan.Hints)
 		keySet = candidateKeySet(candidates)
-		filterEval = plan.Residual
 	}
 
 	if !hasTimeBounds {
 		return func(t treasure.Treasure) bool {
-			if keySet != nil {
+			if indexed {
 				if _, in := keySet[t.GetKey()]; !in {
 					return false
 				}
 			}
-			return evaluateNativeFilterGroup(t, filterEval)
+			return evaluateNativeFilterGroup(t, filters)
 		}, nil
 	}
 	fromNano, toNano := timeBoundsNanos(fromTime, toTime)
@@ -195,12 +200,12 @@ func buildShiftMatchingPredicate(sw swamp.Swamp, beaconType swamp.BeaconType, fi
 		if !inTimeRange(getTs(t), fromNano, toNano) {
 			return false
 		}
-		if keySet != nil {
+		if indexed {
 			if _, in := keySet[t.GetKey()]; !in {
 				return false
 			}
 		}
-		return evaluateNativeFilterGroup(t, filterEval)
+		return evaluateNativeFilterGroup(t, filters)
 	}, nil
 }
 
